@@ -54,3 +54,81 @@ def CombineWF(spl: ty.Any, comb: ty.Any, consts: ty.Any, lists: ty.Any) -> ty.An
     n = workflow.add(Tag(**consts).split(spl, **lists).combine(comb), name="N")
     i = workflow.add(Ident(a=n.out), name="I")
     return i.out
+
+
+@python.define(xor=[["p", "q", None], ["r", "s", None]])
+def XorTask(p: int | None = None, q: int | None = None, r: str | None = None,
+            s: str | None = None) -> ty.Any:
+    """Two exclusive groups: the class carries a frozenset of frozensets (C07)."""
+    return [p, q, r, s]
+
+
+# ---------------------------------------------------------------- workflow program tasks (C03...)
+from vlib.ref.workflow import fmt as _fmt  # noqa: E402
+
+
+def _gate(token: str):
+    """Schedule control (vlib/inject/sched.py): when VERIF_GATE names a gate directory the body
+    announces itself, waits for its release and logs start/end; optionally fails on request."""
+    import hashlib
+    import os
+    import time
+
+    gate = os.environ.get("VERIF_GATE")
+    if not gate:
+        return None
+    h = hashlib.sha1(token.encode()).hexdigest()[:16]
+
+    def log(line):
+        fd = os.open(os.path.join(gate, "log"), os.O_WRONLY | os.O_APPEND | os.O_CREAT)
+        try:
+            os.write(fd, (line + "\n").encode())
+        finally:
+            os.close(fd)
+
+    log(f"S\t{token}")
+    open(os.path.join(gate, "entered", h), "w").close()
+    go = os.path.join(gate, "go", h)
+    free = os.path.join(gate, "free")  # when present nothing blocks (uncontrolled runs)
+    while not (os.path.exists(go) or os.path.exists(free)):
+        time.sleep(0.0005)
+    if os.path.exists(os.path.join(gate, "fail", h)):
+        log(f"E\t{token}\tfail")
+        raise RuntimeError(f"injected failure in {token}")
+    log(f"E\t{token}\tok")
+    return None
+
+
+@python.define
+def WT1(a: ty.Any) -> ty.Any:
+    out = f"f({_fmt(a)})"
+    _gate(out)
+    return out
+
+
+@python.define
+def WT2(a: ty.Any, b: ty.Any) -> ty.Any:
+    out = f"g({_fmt(a)},{_fmt(b)})"
+    _gate(out)
+    return out
+
+
+@python.define
+def WL(a: ty.Any) -> ty.Any:
+    out = [f"{_fmt(a)}.0", f"{_fmt(a)}.1"]
+    _gate(_fmt(out))
+    return out
+
+
+@workflow.define
+def WSub1(a: ty.Any) -> ty.Any:
+    p = workflow.add(WT1(a=a), name="p")
+    q = workflow.add(WT1(a=p.out), name="q")
+    return q.out
+
+
+@workflow.define
+def WSub2(a: ty.Any, b: ty.Any) -> ty.Any:
+    p = workflow.add(WT1(a=a), name="p")
+    q = workflow.add(WT2(a=p.out, b=b), name="q")
+    return q.out
